@@ -16,7 +16,7 @@ RULE = (
     "and integer inputs, scalar or batched coordinates drawn from {integers in range, uniform in range, up to 2 "
     "cells outside}: compared with a NumPy corner-sum reference (lower index clipped to [0,n-2], unclipped "
     "weights), 1e-9 relative; integer coordinates must return the entries. (grid) LinspaceGrid/LogspaceGrid over "
-    "12 orders of magnitude of start/stop, n=2..200, values anywhere (linear) / inside the range (log), scalar, "
+    "12 orders of magnitude of start/stop, n=2..200, values anywhere (linear) / inside the range (log), plus probes at relative distance 1e-6 and 3e-8 from nodes, scalar, "
     "vmapped and jitted: coordinate(node_i) = i for the first and the last nodes and for the stop bound itself (1e-9 abs), coordinates strictly increasing for values whose gap "
     "exceeds 1e-9 of the range (and never decreasing beyond 1e-12), and map_coordinates(nodes, coordinate(x)) = x "
     "(1e-9 relative to the range); all tolerances are widened by the floating-point resolution of the inputs, 16*eps*max(|start|,|stop|) in value units. Non-trivial: kernel: rank>=2 with a fractional coordinate and one outside the "
@@ -120,6 +120,14 @@ def check_grid(case):
     nodes = np.asarray(call_lcm(g.to_jax), dtype=float)
     rng = b - a
     xs = sorted(a + u * rng for u in case["u"])
+    # probes very close to (but not on) nodes: a coordinate that snaps to the node there would
+    # make the coordinate non-monotone and break the round trip
+    for j in sorted({0, 1, n // 2, n - 2, n - 1} & set(range(n))):
+        for delta in (1e-6, -1e-6, 3e-8, -3e-8):
+            x = float(nodes[j]) * (1 + delta) if nodes[j] != 0 else delta * rng
+            if nodes[0] <= x <= nodes[-1]:
+                xs.append(x)
+    xs = sorted(xs)
     if not case["log"]:
         xs = sorted(xs + [a + u * rng for u in case["outside"]])
     xs = np.asarray(xs, dtype=float)
